@@ -10,6 +10,8 @@ import io
 import json
 import random as _random
 import socket
+import sys
+import time as _real_time
 import urllib.error
 import urllib.request
 
@@ -334,11 +336,74 @@ def set_debug_logging(on):
         lg.setLevel(logging.DEBUG if on else logging.WARNING)
 
 
+class TimeShim:
+    """The clock as the code under test sees it, should it ever look: simulated, strictly increasing, advanced
+    by sleep() - which costs nothing and is a scheduling point.  Bound in place of the `time` module (or of
+    functions imported from it) in the instrumented modules; the unchanged tree does not use the clock at all."""
+
+    EPOCH = 1_700_000_000.0
+
+    def __init__(self):
+        self.now = self.EPOCH
+        self.sleeps = 0
+
+    def _tick(self):
+        self.now += 1e-6
+        return self.now
+
+    def time(self):
+        return self._tick()
+
+    def monotonic(self):
+        return self._tick() - self.EPOCH + 1000.0
+
+    perf_counter = monotonic
+
+    def time_ns(self):
+        return int(self._tick() * 1e9)
+
+    def monotonic_ns(self):
+        return int(self.monotonic() * 1e9)
+
+    def sleep(self, seconds):
+        self.now += max(0.0, float(seconds))
+        self.sleeps += 1
+        sim = threadsim._SIM
+        t = sim.by_ident.get(threadsim._thread.get_ident()) if sim is not None else None
+        if t is not None:
+            sim.net_yield(t)
+
+    def __getattr__(self, name):
+        return getattr(_real_time, name)
+
+
+def _bind_clock(clock):
+    fns = {_real_time.time: clock.time, _real_time.monotonic: clock.monotonic, _real_time.sleep: clock.sleep,
+           _real_time.perf_counter: clock.perf_counter, _real_time.time_ns: clock.time_ns,
+           _real_time.monotonic_ns: clock.monotonic_ns}
+    for mod in (conn_http, sys.modules.get("ak.mcaller_http"), sys.modules.get("ak.mcaller")):
+        if mod is None:
+            continue
+        for name, val in list(vars(mod).items()):
+            if val is _real_time or isinstance(val, TimeShim):
+                vars(mod)[name] = clock
+            else:
+                try:
+                    new = fns.get(val)
+                except TypeError:
+                    new = None
+                if new is not None:
+                    vars(mod)[name] = new
+                elif getattr(val, "__self__", None).__class__ is TimeShim:
+                    vars(mod)[name] = getattr(clock, val.__name__)
+
+
 def install_seams(rng_seed, log):
     """Replace the nondeterminism seams of ak.conn_http for this run."""
     shim = threadsim.ThreadingShim()
     conn_http.threading = shim
     conn_http.random = _random.Random(rng_seed)
+    _bind_clock(TimeShim())
     tr = Transport(log)
     tr.install()
     return shim, tr
